@@ -395,6 +395,23 @@ func init() {
 				fmt.Fprintf(w, "def firstPageNumberAbove : Nat := %s\n", g)
 			}
 		}
+		w.WriteString("\n/-! data validations: enum constants in iota order with the strings of the two maps, error styles -/\n")
+		c18EnumMap(w, "DataValidationType", "dataValidationTypeMap", "dvTypeNames")
+		c18EnumMap(w, "DataValidationOperator", "dataValidationOperatorMap", "dvOperatorNames")
+		{
+			var styles []string
+			for _, n := range []string{"styleStop", "styleWarning", "styleInformation"} {
+				if bl, ok := constExpr(n).(*ast.BasicLit); ok {
+					styles = append(styles, unq(bl.Value))
+				}
+			}
+			consts := c18IotaNames("DataValidationErrorStyle")
+			if len(styles) != 3 || len(consts) != 3 || consts[0] != "DataValidationErrorStyleStop" || consts[1] != "DataValidationErrorStyleWarning" || consts[2] != "DataValidationErrorStyleInformation" {
+				fail("error style constants stop/warning/information in iota order 1..3")
+			} else {
+				fmt.Fprintf(w, "def dvErrorStyles : List String := %s\n", c18StrList(styles))
+			}
+		}
 		w.WriteString("\n/-! conditional formats: type and criteria tables (styles.go) -/\n")
 		for _, n := range []string{"validType", "criteriaType", "operatorType"} {
 			c18StrMap(w, n, true)
@@ -490,4 +507,57 @@ func c18ProtFlags(w *bytes.Buffer, fnName, typ, prefix string) {
 	}
 	fmt.Fprintf(w, "def %sFlags : List (String × String × Bool) := [%s]\n", prefix, strings.Join(flags, ", "))
 	fmt.Fprintf(w, "def %sConsts : List (String × Bool) := [%s]\n", prefix, strings.Join(consts, ", "))
+}
+
+// c18IotaNames: names of the const block whose first spec has the given type (iota order, `_` skipped:
+// the first real name has value 1).
+func c18IotaNames(typ string) []string {
+	for _, f := range files {
+		for _, d := range f.Decls {
+			gd, ok := d.(*ast.GenDecl)
+			if !ok || gd.Tok != token.CONST || len(gd.Specs) == 0 {
+				continue
+			}
+			first := gd.Specs[0].(*ast.ValueSpec)
+			if id, ok := first.Type.(*ast.Ident); !ok || id.Name != typ {
+				continue
+			}
+			if len(first.Names) != 1 || first.Names[0].Name != "_" {
+				return nil
+			}
+			var names []string
+			for _, sp := range gd.Specs[1:] {
+				for _, n := range sp.(*ast.ValueSpec).Names {
+					names = append(names, n.Name)
+				}
+			}
+			return names
+		}
+	}
+	return nil
+}
+
+// c18EnumMap emits, for the enum constants 1..n in iota order, the string the map literal gives them.
+func c18EnumMap(w *bytes.Buffer, typ, mapName, leanName string) {
+	names := c18IotaNames(typ)
+	cl, ok := constExpr(mapName).(*ast.CompositeLit)
+	if names == nil || !ok {
+		fail("const block of %s starting with `_ %s = iota` and map literal %s", typ, typ, mapName)
+		return
+	}
+	m := map[string]string{}
+	for _, e := range cl.Elts {
+		if kv, ok := e.(*ast.KeyValueExpr); ok {
+			if k, ok := kv.Key.(*ast.Ident); ok {
+				if v, ok := kv.Value.(*ast.BasicLit); ok {
+					m[k.Name] = unq(v.Value)
+				}
+			}
+		}
+	}
+	var vals []string
+	for _, n := range names {
+		vals = append(vals, m[n]) // a constant without map entry yields "" as in Go
+	}
+	fmt.Fprintf(w, "def %s : List String := %s\n", leanName, c18StrList(vals))
 }
